@@ -5,6 +5,10 @@
 #include "problem.h"
 #include "refop.h"
 #include "DirectSolver/DirectSolverGiveCustomLU/directSolverGiveCustomLU.h"
+#include "Smoother/SmootherGive/smootherGive.h"
+#include "Smoother/SmootherTake/smootherTake.h"
+#include "ExtrapolatedSmoother/ExtrapolatedSmootherGive/extrapolatedSmootherGive.h"
+#include "ExtrapolatedSmoother/ExtrapolatedSmootherTake/extrapolatedSmootherTake.h"
 
 static const double EPS  = 2.220446049250313e-16;
 static const double CTOL = 32.0;
@@ -40,6 +44,110 @@ static Vector<double> advVector(const PolarGrid& g, int kind, uint64_t seed, con
         }
     }
     return v;
+}
+
+// "The line blocks the smoothers factorise inherit both properties", decided on the objects that are actually
+// factorised, without a hook: with x = 0 and f = e_k one sweep returns, on the line of node k, column k of the inverse
+// of that line's block (every node is updated exactly once per sweep, lines updated earlier see a zero right-hand
+// side; Dirichlet nodes keep f = 0). The probed inverse must be symmetric, positive definite, and the inverse of the operator's principal
+// sub-block (M = probed matrix of the residual operator of the same strategy).
+template <class Sweep>
+static bool probeLineBlocks(Outcome& o, const PolarGrid& g, const DMat& M, bool extrapolated, bool dirbc, const char* name, Sweep sweep)
+{
+    const int n = g.numberOfNodes(), nr = g.nr(), nt = g.ntheta(), nC = g.numberSmootherCircles();
+    // the property speaks about the non-Dirichlet unknowns: boundary nodes carry identity rows and are left out
+    auto isFree = [&](int i, int j) { return (!extrapolated || (i & 1) || (j & 1)) && i != nr - 1 && !(dirbc && i == 0); };
+    std::vector<std::vector<int>> lines;
+    for (int i = 0; i < nC; i++) {
+        std::vector<int> L;
+        for (int j = 0; j < nt; j++)
+            if (isFree(i, j))
+                L.push_back(g.index(i, j));
+        lines.push_back(L);
+    }
+    for (int j = 0; j < nt; j++) {
+        std::vector<int> L;
+        for (int i = nC; i < nr; i++)
+            if (isFree(i, j))
+                L.push_back(g.index(i, j));
+        lines.push_back(L);
+    }
+    Vector<double> x(n), f(n), tmp(n);
+    for (size_t li = 0; li < lines.size(); li++) {
+        const std::vector<int>& L = lines[li];
+        const int m = (int)L.size();
+        if (m == 0)
+            continue;
+        DMat Binv(m), Bref(m);
+        for (int a = 0; a < m; a++) {
+            for (int k = 0; k < n; k++) {
+                x[k]   = 0.0;
+                f[k]   = 0.0;
+                tmp[k] = 0.0;
+            }
+            f[L[a]] = 1.0;
+            sweep(x, f, tmp);
+            for (int b = 0; b < m; b++) {
+                Binv(b, a) = x[L[b]];
+                Bref(a, b) = M(L[a], L[b]);
+            }
+        }
+        const LD kappa = std::max<LD>(1, Binv.normInf() * Bref.normInf());
+        o.mx("log10_line_kappa", (double)log10l(kappa));
+        o.cnt("line_blocks_probed");
+        const bool circle = (int)li < nC;
+        char where[96];
+        snprintf(where, sizeof where, "%s %s line %d (%d unknowns)", name, circle ? "circle" : "radial", circle ? (int)li : (int)li - nC, m);
+        if (kappa > 1e10L) {
+            o.cnt("line_blocks_illconditioned_skipped");
+            continue;
+        }
+        // (a) inverse of the operator's principal sub-block
+        LD worst = 0;
+        for (int a = 0; a < m; a++)
+            for (int b = 0; b < m; b++) {
+                LD sacc = 0;
+                for (int k = 0; k < m; k++)
+                    sacc += Bref(a, k) * Binv(k, b);
+                worst = std::max(worst, fabsl(sacc - (a == b ? 1.0L : 0.0L)));
+            }
+        const LD tolI = CTOL * m * EPS * kappa;
+        o.mx("line_block_inverse_defect_over_tol", (double)(worst / tolI));
+        if (worst > tolI) {
+            char buf[256];
+            snprintf(buf, sizeof buf, "%s: the factorised block is not the operator's principal sub-block (|A_LL B^-1 - I| = %.3Le, tol %.3Le)", where,
+                     worst, tolI);
+            o.fail("line_block_operator", buf);
+            return false;
+        }
+        // (b) symmetric
+        for (int a = 0; a < m; a++)
+            for (int b = a + 1; b < m; b++) {
+                const LD tol = CTOL * EPS * kappa * std::max(fabsl(Binv(a, a)), fabsl(Binv(b, b)));
+                const LD d   = fabsl(Binv(a, b) - Binv(b, a));
+                if (tol > 0)
+                    o.mx("line_block_asymmetry_over_tol", (double)(d / tol));
+                if (d > tol) {
+                    char buf[256];
+                    snprintf(buf, sizeof buf, "%s: inverse of the factorised block is not symmetric: (%d,%d)=%.17Lg, (%d,%d)=%.17Lg", where, a, b,
+                             Binv(a, b), b, a, Binv(b, a));
+                    o.fail("line_block_symmetry", buf);
+                    return false;
+                }
+            }
+        // (c) positive definite (the inverse of an SPD matrix is SPD)
+        for (int a = 0; a < m; a++)
+            for (int b = a + 1; b < m; b++)
+                Binv(a, b) = Binv(b, a) = 0.5L * (Binv(a, b) + Binv(b, a));
+        const LD minp = choleskyMinPivot(Binv);
+        if (!(minp > 0)) {
+            char buf[200];
+            snprintf(buf, sizeof buf, "%s: the factorised block is not positive definite (Cholesky pivot of its inverse %.3Le)", where, minp);
+            o.fail("line_block_definite", buf);
+            return false;
+        }
+    }
+    return true;
 }
 
 static Outcome runCase(const KV& c)
@@ -162,9 +270,10 @@ static Outcome runCase(const KV& c)
         }
     }
     // decisive on small grids: full matrix, entrywise symmetry and Cholesky of the interior block
+    DMat Mop[2];
     if (probe && n <= 900) {
         for (int impl = 0; impl < 2; impl++) {
-            DMat M;
+            DMat& M = Mop[impl];
             if (impl == 0) {
                 ResidualGive op(g, H.levels[0]->levelCache(), *H.geometry, *H.coefficients, p.dirbc, 1);
                 M = probeMatrix(op, g);
@@ -211,7 +320,39 @@ static Outcome runCase(const KV& c)
                 o.fail("cholesky", buf);
                 return o;
             }
-            // every circle line and radial line block inherits symmetry/definiteness (principal sub-blocks)
+        }
+    }
+    // the blocks the four smoothers actually factorise
+    const int nC = g.numberSmootherCircles();
+    if (probe && n <= 900 && c.getI("probe_lines", 0) && nC >= 2 && nr - nC >= 3 && nt % 4 == 0) {
+        o.cls("line_blocks");
+        const LevelCache& lc = H.levels[0]->levelCache();
+        {
+            SmootherGive sm(g, lc, *H.geometry, *H.coefficients, p.dirbc, 1);
+            if (!probeLineBlocks(o, g, Mop[0], false, p.dirbc, "SmootherGive", [&](Vector<double>& x, Vector<double>& f, Vector<double>& t) { sm.smoothing(x, f, t); }))
+                return o;
+        }
+        {
+            SmootherTake sm(g, lc, *H.geometry, *H.coefficients, p.dirbc, 1);
+            omp_set_num_threads(1);
+            if (!probeLineBlocks(o, g, Mop[1], false, p.dirbc, "SmootherTake", [&](Vector<double>& x, Vector<double>& f, Vector<double>& t) { sm.smoothing(x, f, t); }))
+                return o;
+        }
+        if (nC >= 3 && nr % 2 == 1) {
+            o.cls("line_blocks_extrapolated");
+            {
+                ExtrapolatedSmootherGive sm(g, lc, *H.geometry, *H.coefficients, p.dirbc, 1);
+                if (!probeLineBlocks(o, g, Mop[0], true, p.dirbc, "ExtrapolatedSmootherGive",
+                                     [&](Vector<double>& x, Vector<double>& f, Vector<double>& t) { sm.extrapolatedSmoothing(x, f, t); }))
+                    return o;
+            }
+            {
+                ExtrapolatedSmootherTake sm(g, lc, *H.geometry, *H.coefficients, p.dirbc, 1);
+                omp_set_num_threads(1);
+                if (!probeLineBlocks(o, g, Mop[1], true, p.dirbc, "ExtrapolatedSmootherTake",
+                                     [&](Vector<double>& x, Vector<double>& f, Vector<double>& t) { sm.extrapolatedSmoothing(x, f, t); }))
+                    return o;
+            }
         }
     }
     return o;
@@ -226,15 +367,33 @@ static KV genCase()
     go.nt_min = 4;
     go.nt_max = 48;
     go.allow_large = true;
+    // one case in five: a small grid the smoothers accept (>= 2 circles, >= 3 radial nodes, ntheta % 4 == 0), with the
+    // line blocks the smoothers factorise probed as well
+    const bool lines = rint(0, 4) == 0;
+    if (lines) {
+        go.nr_min      = 5;
+        go.nr_max      = 15;
+        go.nt_max      = 24;
+        go.nt_mult4    = true;
+        go.allow_large = false;
+        go.coarsenable = rbool();
+        go.min_circles = go.coarsenable ? 3 : 2;
+        go.min_radial  = 3;
+    }
     ProblemSpec p  = genProblem(go);
+    if (lines && p.nr() < go.min_circles + go.min_radial) {
+        p.radii      = genRadii(go.min_circles + go.min_radial + (go.coarsenable ? 1 : 0), 0, p.radii.front(), p.radii.back());
+        p.split_mode = 0;
+    }
     p.put(c);
+    c.putI("probe_lines", lines);
     c.putI("threads", rpick({1, 1, 2, 3, 5, 16}));
     auto kind = [&] { return rweighted({4, 3, 1, 1, 1, 0, 0, 0, 0, 0, 1, 1, 1, 2}); };
     c.putI("x_kind", kind());
     c.putU("x_seed", rseed());
     c.putI("y_kind", kind());
     c.putU("y_seed", rseed());
-    c.putI("probe", (p.nr() * p.ntheta() <= 400 && rint(0, 3) == 0) ? 1 : 0);
+    c.putI("probe", (p.nr() * p.ntheta() <= 400 && (lines || rint(0, 3) == 0)) ? 1 : 0);
     return c;
 }
 
